@@ -64,6 +64,12 @@ type MemStore struct {
 
 func NewMemStore() *MemStore { return &MemStore{m: map[string][]byte{}} }
 
+// kvReads counts Get / Has calls on all MemStores: the reads a gas-metered context is charged for (the gas-metering store
+// wrapper itself is skipped under the executor). Engine mode only.
+var kvReads int
+
+func KVReads() int { return kvReads }
+
 func (s *MemStore) GetStoreType() storetypes.StoreType { return storetypes.StoreTypeDB }
 func (s *MemStore) CacheWrap() storetypes.CacheWrap     { panic("MemStore.CacheWrap not modelled") }
 func (s *MemStore) CacheWrapWithTrace(w io.Writer, tc storetypes.TraceContext) storetypes.CacheWrap {
@@ -73,6 +79,7 @@ func (s *MemStore) Get(key []byte) []byte {
 	if key == nil {
 		panic("nil key")
 	}
+	kvReads++
 	v, ok := s.m[string(key)]
 	if !ok {
 		return nil
@@ -80,6 +87,7 @@ func (s *MemStore) Get(key []byte) []byte {
 	return v
 }
 func (s *MemStore) Has(key []byte) bool {
+	kvReads++
 	_, ok := s.m[string(key)]
 	return ok
 }
@@ -256,7 +264,7 @@ func NewEnv(kv []string, transient []string) *Env {
 	return e
 }
 
-var nativeCodec codec.BinaryCodec
+var nativeCodec codec.Codec
 
 var extraIfaces []func(codectypes.InterfaceRegistry)
 
@@ -265,6 +273,12 @@ func RegisterInterfaces(f func(codectypes.InterfaceRegistry)) { extraIfaces = ap
 
 // Codec returns the binary codec: natively the real protobuf codec; under the executor a typed-blob codec
 // (Marshal wraps the message, Unmarshal of a blob of the same type returns it).
+// CodecFull is Codec for keepers whose constructor asks for a codec.Codec.
+func CodecFull() codec.Codec {
+	Codec()
+	return nativeCodec
+}
+
 func Codec() codec.BinaryCodec {
 	if nativeCodec == nil {
 		reg := codectypes.NewInterfaceRegistry()
